@@ -1237,6 +1237,7 @@ MAX_REPORTED = 6
 
 def run(ctx):
     ctx.prove(["Props/C09.vo", "Run/eval_C09.vo"], extra_props=["Compose_C09_C20"])   # + composition C09 <-> C20 (a solo invocation of Procs is Lifecycle's run: same steps, effect, status)
+    import extractlib; extractlib.fn_tie(ctx, "C09")   # Invocation.UsesMagefiles re-translated from the tree and proved equal to the flag the models take (DESIGN 3.5)
     import extractlib; extractlib.tables_tie(ctx, ['mainfile', 'initFile', 'MagefilesDirName'])   # literal data of the source re-proved equal to the models' (DESIGN 3.5)
     real_violation = ctx.violation
     suppressed = [0]
